@@ -404,6 +404,13 @@ class Verdict:
         return "violation"
 
     def finish(self, coverage, level="model_checking", assumptions=()):
+        if os.environ.get("VERIF_SELFTEST"):
+            # a self-test deliberately corrupts something: its alarms are not the property's, its evidence is not kept
+            for fid, (n, k, sig) in sorted(self.known_hits.items()):
+                log(f"[selftest] known finding {fid} x{n}")
+            for sig, case in self.violations[:5]:
+                log(f"[selftest] alarm raised: {sig}")
+            return 1 if self.violations else 0
         os.makedirs(EVID, exist_ok=True)
         os.makedirs(REPLAYS, exist_ok=True)
         for fid, (n, k, sig) in sorted(self.known_hits.items()):
